@@ -45,11 +45,10 @@ def instances():
     for k in "bidsn":
         out.append(nary("isnull", "ISNULLExpression", "blocc/builtin/builtin_isnull.h", k, ["C04", "C01", "C05"], "ORC_ISNULL", tus=B("isnull")))
     # string builtins
-    out.append(nary("substr", "SUBSTRExpression", "blocc/builtin/builtin_substr.h", "sii", P10, "ORC_SUBSTR", slen=3, tus=B("substr"),
-                    known="verif_known(KF_SUBSTR_BEGIN_OVERFLOW_UB, !A[1].isnull && A[1].i < LONG_MIN + 3)"))
-    out.append(nary("substr", "SUBSTRExpression", "blocc/builtin/builtin_substr.h", "si", P10, "ORC_SUBSTR", slen=3, tus=B("substr"),
-                    known="verif_known(KF_SUBSTR_BEGIN_OVERFLOW_UB, !A[1].isnull && A[1].i < LONG_MIN + 3)"))
-    out.append(nary("substr", "SUBSTRExpression", "blocc/builtin/builtin_substr.h", "sdd", ["C10", "C01", "C05"], slen=2, tus=B("substr"), tier="thorough"))
+    out.append(nary("substr", "SUBSTRExpression", "blocc/builtin/builtin_substr.h", "sii", P10, "ORC_SUBSTR", slen=3, tus=B("substr")))
+    out.append(nary("substr", "SUBSTRExpression", "blocc/builtin/builtin_substr.h", "si", P10, "ORC_SUBSTR", slen=3, tus=B("substr")))
+    out.append(nary("substr", "SUBSTRExpression", "blocc/builtin/builtin_substr.h", "sdd", ["C10", "C01", "C05"], slen=2, tus=B("substr"), tier="thorough",
+                    known="verif_known(KF_DECIMAL_ARGUMENT_TO_INTEGER_UNCHECKED, (!A[1].isnull && !(A[1].d >= -9223372036854775808.0 && A[1].d < 9223372036854775808.0)) || (!A[2].isnull && !(A[2].d >= -9223372036854775808.0 && A[2].d < 9223372036854775808.0)))"))
     out.append(nary("lsubstr", "LSUBSTRExpression", "blocc/builtin/builtin_lsubstr.h", "si", P10, "ORC_LSUB", slen=3, tus=B("lsubstr")))
     out.append(nary("rsubstr", "RSUBSTRExpression", "blocc/builtin/builtin_rsubstr.h", "si", P10, "ORC_RSUB", slen=3, tus=B("rsubstr")))
     out.append(nary("strlen", "STRLENExpression", "blocc/builtin/builtin_strlen.h", "s", P10, "ORC_STRLEN", slen=3, tus=B("strlen")))
